@@ -771,6 +771,9 @@ class TypedTree(Tree):
                     value_map = self.DEFAULT_VALUE_MAP.copy()
 
                 if "kind" not in value_map:
+                    # Don't modify the caller's dict (it may be used for other
+                    # trees with different kinds)
+                    value_map = dict(value_map)
                     counter = Counter()
                     for n in self:
                         counter[n.kind] += 1
